@@ -7,11 +7,26 @@ open MythVerif.Wsq
 @[simp] theorem code_popFence : FenceCfg.code.popFence = true := rfl
 @[simp] theorem code_takeFence : FenceCfg.code.takeFence = true := rfl
 @[simp] theorem code_unlockFence : FenceCfg.code.unlockFence = true := rfl
+@[simp] theorem code_wtakeFence : FenceCfg.code.wtakeFence = true := rfl
+@[simp] theorem code_wpeekFence : FenceCfg.code.wpeekFence = true := rfl
 
 theorem getLast?_tail_of_length (x : Elem) (A' : List Elem) (h : A' ≠ []) : (x :: A').getLast? = A'.getLast? := by
   cases A' with
   | nil => exact absurd rfl h
   | cons a t => simp [List.getLast?_cons_cons]
+
+theorem dropLast_keep (A : List Elem) (h : 2 ≤ A.length) : A.dropLast ≠ [] ∧ A.dropLast.head? = A.head? := by
+  cases A with
+  | nil => simp at h
+  | cons a t =>
+    cases t with
+    | nil => simp at h
+    | cons b u => simp [List.dropLast]
+
+theorem head?_append_of_ne (A : List Elem) (e : Elem) (h : A ≠ []) : (A ++ [e]).head? = A.head? := by
+  cases A with
+  | nil => exact absurd rfl h
+  | cons a t => simp
 
 theorem carry_viewTop (bufO : List Sto) (top lt : Int) (ptr : Int → Option Elem) (A : List Elem)
     (h : CarryShape bufO top lt ptr A) : viewTop bufO top = lt := by
@@ -39,19 +54,24 @@ theorem carry_tail (bufO : List Sto) (top lt lb : Int) (ptr : Int → Option Ele
 
 theorem pof_tail (bufO : List Sto) (top lt lb t : Int) (ptr : Int → Option Elem) (x : Elem) (A' : List Elem)
     (h : PofShape bufO top ptr (x :: A') t) (hlt : lt = t + 1)
-    (hlen : (((x :: A').length : Nat) : Int) = lt - lb) (hb : lb < top) :
+    (hlen : (((x :: A').length : Nat) : Int) = lt - lb) (hb : lb < top ∨ bufO = []) :
     PofShape bufO top ptr A' t := by
-  have hne : top = t → A' ≠ [] := by
-    intro ht hA; subst hA; simp at hlen; omega
+  have hne : top = t → bufO ≠ [] → A' ≠ [] := by
+    intro ht hbn hA
+    rcases hb with hb | hb
+    · subst hA; simp at hlen; omega
+    · exact hbn hb
   rcases h with ⟨h1, h2⟩ | ⟨h1, h2, h3⟩ | ⟨h1, h2, _, h4⟩ | ⟨e, h1, h2, h4⟩
   · exact Or.inl ⟨h1, h2⟩
   · refine Or.inr (Or.inl ⟨h1, h2, ?_⟩)
     intro hA'
     rw [h3 (by simp), getLast?_tail_of_length x A' hA']
-  · refine Or.inr (Or.inr (Or.inl ⟨h1, h2, hne h2, ?_⟩))
-    rw [h4, getLast?_tail_of_length x A' (hne h2)]
-  · refine Or.inr (Or.inr (Or.inr ⟨e, h1, h2, ?_⟩))
-    rw [← h4, getLast?_tail_of_length x A' (hne h2)]
+  · have hA' := hne h2 (by simp [h1])
+    refine Or.inr (Or.inr (Or.inl ⟨h1, h2, hA', ?_⟩))
+    rw [h4, getLast?_tail_of_length x A' hA']
+  · have hA' := hne h2 (by simp [h1])
+    refine Or.inr (Or.inr (Or.inr ⟨e, h1, h2, ?_⟩))
+    rw [← h4, getLast?_tail_of_length x A' hA']
 
 theorem rc1_viewTop (buf : List Sto) (top base lb lt sh off : Int) (h : Rc1Shape buf top base lb lt sh off) :
     viewTop buf top = top := by
@@ -116,16 +136,20 @@ macro "tso_simp_h" : tactic => `(tactic|
 macro "tso_finish" : tactic => `(tactic| (
     constructor
     all_goals (try simp only [ownerLocked, carry, resetting, ownerFlight, upd_apply, applySto])
-    all_goals (first | assumption | grind [thiefLocked, mayBuf, notTrans, thiefFlight, List.length_dropLast] | grind [thiefLocked, mayBuf, notTrans, thiefFlight, List.length_dropLast, getLast?_tail_of_length, CarryShape, Pu2Shape, PofShape, Po6Shape, Po8Shape, Po9Shape, InsShape, Rc1Shape, Rc2Shape, RcPre, RcShape, TkfShape, Tk6Shape] | skip)))
+    all_goals (first | assumption | grind [thiefLocked, mayBuf, notTrans, thiefFlight, popWin, List.length_dropLast] | grind [thiefLocked, mayBuf, notTrans, thiefFlight, popWin, List.length_dropLast, getLast?_tail_of_length, head?_append_of_ne, CarryShape, Pu2Shape, PofShape, Po6Shape, Po8Shape, Po9Shape, InsShape, Rc1Shape, Rc2Shape, RcPre, RcShape, Po5cShape, Wk4uShape, Vk5Shape, VuShape, TkfShape, Tk6Shape] | skip)))
 
 /-- the closing part of `tso_finish`, for proofs that treat some clauses by hand after `constructor` -/
 macro "tso_rest" : tactic => `(tactic| (
-    all_goals (first | assumption | grind [thiefLocked, mayBuf, notTrans, thiefFlight, List.length_dropLast] | grind [thiefLocked, mayBuf, notTrans, thiefFlight, List.length_dropLast, getLast?_tail_of_length, upd_apply, CarryShape, Pu2Shape, PofShape, Po6Shape, Po8Shape, Po9Shape, InsShape, Rc1Shape, Rc2Shape, RcPre, RcShape, TkfShape, Tk6Shape] | skip)))
+    all_goals (first | assumption | grind [thiefLocked, mayBuf, notTrans, thiefFlight, popWin, List.length_dropLast] | grind [thiefLocked, mayBuf, notTrans, thiefFlight, popWin, List.length_dropLast, getLast?_tail_of_length, head?_append_of_ne, upd_apply, CarryShape, Pu2Shape, PofShape, Po6Shape, Po8Shape, Po9Shape, InsShape, Rc1Shape, Rc2Shape, RcPre, RcShape, Po5cShape, Wk4uShape, Vk5Shape, VuShape, TkfShape, Tk6Shape] | skip)))
+
+/-- a store at the head of the owner's buffer that no buffer-shape clause of this program counter allows -/
+macro "tso_absurd" : tactic => `(tactic|
+  grind [CarryShape, Pu2Shape, PofShape, Po5cShape, Po6Shape, Po8Shape, Po9Shape, InsShape, Rc1Shape, Rc2Shape, RcPre, RcShape])
 
 /-- like `tso_finish`, with the shapes unfolded at once (flush steps) -/
 macro "tso_finish3" : tactic => `(tactic| (
     constructor
     all_goals (try simp only [ownerLocked, carry, resetting, ownerFlight, upd_apply, applySto])
-    all_goals (first | assumption | grind [thiefLocked, mayBuf, notTrans, thiefFlight, List.length_dropLast, getLast?_tail_of_length, upd_apply, CarryShape, Pu2Shape, PofShape, Po6Shape, Po8Shape, Po9Shape, InsShape, Rc1Shape, Rc2Shape, RcPre, RcShape, TkfShape, Tk6Shape] | skip)))
+    all_goals (first | assumption | grind [thiefLocked, mayBuf, notTrans, thiefFlight, popWin, List.length_dropLast, getLast?_tail_of_length, head?_append_of_ne, upd_apply, CarryShape, Pu2Shape, PofShape, Po6Shape, Po8Shape, Po9Shape, InsShape, Rc1Shape, Rc2Shape, RcPre, RcShape, Po5cShape, Wk4uShape, Vk5Shape, VuShape, TkfShape, Tk6Shape] | skip)))
 
 end MythVerif.WsqTso
